@@ -3,6 +3,9 @@
 //	c05 gen <quick|thorough> <casefile>   generate cases (deterministic from VERIF_SEED), run the
 //	                                      implementation on each, write one line per case
 //	c05 one <kind> <a1> <a2> <a3> <a4> <a5>   run one case, print its result fields
+//	c05 onew / seqw                       like one / seq, but every argument buffer is a window frame[off:off+n]
+//	                                      of a larger array with non-zero guard bytes around and spare capacity
+//	                                      behind; the whole arrays are compared after each call
 //	c05 seq <file>                        run the calls listed in <file> (kind a1..a5 per line) one after the
 //	                                      other in this process, REUSING the same key / iv / input / output /
 //	                                      message buffers and big.Int objects (values written in place between
@@ -12,7 +15,8 @@
 //
 //	id kind a1 a2 a3 a4 a5 class r1 r2 direct detail seq
 //
-// seq is "-" for a call made with freshly allocated arguments, or "s<k>.<i>" for step i of call sequence k:
+// seq is "-" for a call made with freshly allocated arguments (len = cap), "w" for a call whose arguments are
+// windows of larger live arrays (see onew), or "s<k>.<i>" for step i of call sequence k:
 // the calls of one sequence share their argument buffers (same backing arrays, overwritten in place), so
 // state that the package might carry from one call to the next, or aliasing of a caller's buffer kept by
 // the package, shows up as a wrong result of a later step. Every step is still described by the VALUES its
@@ -32,6 +36,7 @@ import (
 	"fmt"
 	"math/big"
 	"os"
+	"sort"
 	"strconv"
 	"strings"
 
@@ -124,19 +129,63 @@ func (r res) fields() []string {
 
 // session = the argument buffers of one call sequence. nil means: allocate fresh arguments for every call.
 type session struct {
-	bufs map[string][]byte
-	ints map[string]*big.Int
+	bufs    map[string][]byte
+	ints    map[string]*big.Int
+	framed  bool              // hand out windows frame[pre:pre+n] of larger arrays with guard bytes around
+	frames  map[string]*frame // framed: role/len -> frame
+	oneShot bool              // not a sequence: buffers are not reused (fresh frames per role)
 }
 
-func newSession() *session { return &session{bufs: map[string][]byte{}, ints: map[string]*big.Int{}} }
+// frame = a larger live buffer of the caller of which the package only gets a window
+type frame struct {
+	role string
+	mem  []byte // whole backing array: guard | window | guard
+	snap []byte // contents when the window was handed out
+	pre  int
+	n    int
+}
 
-// buf returns a slice with len = cap = len(val) holding val. In a session the slice for a given role and
-// length is always the same backing array, overwritten in place.
+const (
+	guardPre  = 24
+	guardPost = 56 // enough spare capacity behind the window for any padding the package might append
+)
+
+func newSession() *session {
+	return &session{bufs: map[string][]byte{}, ints: map[string]*big.Int{}, frames: map[string]*frame{}}
+}
+
+func newFramedSession() *session {
+	s := newSession()
+	s.framed = true
+	return s
+}
+
+// buf returns a slice holding val. Plain: len = cap = len(val). Framed: a window of a larger array whose
+// other bytes are non-zero guard bytes; the window keeps spare capacity behind it (cap > len), except for
+// slices shorter than 16 bytes (the package slices iv[:16], which looks at the capacity; the model assumes
+// len = cap there). In a sequence the array for a given role and length is always the same one,
+// overwritten in place.
 func (s *session) buf(role string, val []byte) []byte {
 	if s == nil {
 		return append(make([]byte, 0, len(val)), val...)
 	}
 	k := role + "/" + strconv.Itoa(len(val))
+	if s.framed {
+		f, ok := s.frames[k]
+		if !ok {
+			f = &frame{role: role, mem: make([]byte, guardPre+len(val)+guardPost), pre: guardPre, n: len(val)}
+			for i := range f.mem {
+				f.mem[i] = byte(0xC1+7*i) | 1 // never zero
+			}
+			s.frames[k] = f
+		}
+		copy(f.mem[f.pre:], val)
+		f.snap = append(f.snap[:0], f.mem...)
+		if len(val) < 16 {
+			return f.mem[f.pre : f.pre+f.n : f.pre+f.n]
+		}
+		return f.mem[f.pre : f.pre+f.n]
+	}
 	b, ok := s.bufs[k]
 	if !ok {
 		b = make([]byte, len(val))
@@ -144,6 +193,39 @@ func (s *session) buf(role string, val []byte) []byte {
 	}
 	copy(b, val)
 	return b
+}
+
+// guards reports the first byte of any caller array that the package changed although it does not belong
+// to a documented output: everything outside the window, and for every role but "out" the window too.
+func (s *session) guards() string {
+	if s == nil || !s.framed {
+		return ""
+	}
+	keys := make([]string, 0, len(s.frames))
+	for k := range s.frames {
+		keys = append(keys, k)
+	}
+	sort.Strings(keys)
+	for _, k := range keys {
+		f := s.frames[k]
+		for i := range f.mem {
+			inside := i >= f.pre && i < f.pre+f.n
+			if inside && f.role == "out" {
+				continue
+			}
+			if f.mem[i] != f.snap[i] {
+				where := fmt.Sprintf("%d bytes behind the end of", i-(f.pre+f.n)+1)
+				if inside {
+					where = fmt.Sprintf("offset %d inside", i-f.pre)
+				} else if i < f.pre {
+					where = fmt.Sprintf("%d bytes before the start of", f.pre-i)
+				}
+				return fmt.Sprintf("the caller's memory was modified: %s the %d-byte slice passed as %q (a window of a larger live buffer, cap %d): byte %02x became %02x",
+					where, f.n, f.role, cap(f.mem[f.pre:f.pre+f.n]), f.snap[i], f.mem[i])
+			}
+		}
+	}
+	return ""
 }
 
 // num returns a big.Int with the value of raw; in a session the same object is re-set in place.
@@ -175,6 +257,14 @@ func classify(f func() ([]byte, []byte, error)) res {
 
 // runCase runs the implementation; returns result, direct verdict, detail
 func runCase(kind string, a [5]string, ss *session) (res, string, string) {
+	r, direct, detail := runCase0(kind, a, ss)
+	if g := ss.guards(); g != "" && direct != "fail" {
+		return r, "fail", g
+	}
+	return r, direct, detail
+}
+
+func runCase0(kind string, a [5]string, ss *session) (res, string, string) {
 	switch kind {
 	case "igeenc", "igedec":
 		key, iv, data := vc.UnHex(a[0]), vc.UnHex(a[1]), vc.UnHex(a[2])
@@ -217,7 +307,12 @@ func runCase(kind string, a [5]string, ss *session) (res, string, string) {
 			if outlen >= len(data) {
 				want := append(refIGE(key, iv, data, kind == "igedec"), bytes.Repeat([]byte{byte(fb)}, outlen-len(data))...)
 				if r.class != "ok" || !bytes.Equal(out, want) {
-					return r, "fail", "expected ok " + vc.Hex(want) + " (IGE definition)"
+					first := 0
+					for first < len(data) && first < len(out) && out[first] == want[first] {
+						first++
+					}
+					return r, "fail", fmt.Sprintf("output differs from the IGE definition from block #%d of %d on (0-based, byte %d); expected ok %s",
+						first/16, len(data)/16, first, vc.Hex(want))
 				}
 				return r, "pass", ""
 			}
@@ -377,10 +472,27 @@ type gen struct {
 
 func (g *gen) add(kind string, a ...string) { g.addIn(nil, "-", kind, a...) }
 
+// addW: the same call with every argument buffer a window of a larger live array (guard bytes around,
+// spare capacity behind); the whole arrays are compared after the call
+func (g *gen) addW(kind string, a ...string) {
+	g.addIn(newFramedSession(), "w", kind, a...)
+	g.stat("windowed_calls")
+}
+
+// both ways
+func (g *gen) add2(kind string, a ...string) {
+	g.add(kind, a...)
+	g.addW(kind, a...)
+}
+
 // step adds one call of the current sequence
 func (g *gen) step(kind string, a ...string) {
 	g.seqStep++
-	g.addIn(g.sess, fmt.Sprintf("s%d.%d", g.seqNo, g.seqStep), kind, a...)
+	w := ""
+	if g.sess.framed {
+		w = "w"
+	}
+	g.addIn(g.sess, fmt.Sprintf("s%d%s.%d", g.seqNo, w, g.seqStep), kind, a...)
 	g.stat("seq_calls")
 }
 
@@ -389,6 +501,12 @@ func (g *gen) newSeq() {
 	g.seqStep = 0
 	g.sess = newSession()
 	g.stat("sequences")
+}
+
+// a sequence whose shared buffers are windows of larger arrays
+func (g *gen) newSeqW() {
+	g.newSeq()
+	g.sess = newFramedSession()
 }
 
 func (g *gen) addIn(ss *session, tag string, kind string, a ...string) {
@@ -433,20 +551,27 @@ func nonce(r *vc.Rng, n, lz int) []byte {
 func rep(b byte, n int) []byte { return bytes.Repeat([]byte{b}, n) }
 
 func main() {
-	if len(os.Args) >= 8 && os.Args[1] == "one" {
+	if len(os.Args) >= 8 && (os.Args[1] == "one" || os.Args[1] == "onew") {
 		var f [5]string
 		copy(f[:], os.Args[3:8])
-		r, direct, detail := runCase(os.Args[2], f, nil)
+		var one *session
+		if os.Args[1] == "onew" {
+			one = newFramedSession()
+		}
+		r, direct, detail := runCase(os.Args[2], f, one)
 		fmt.Println(strings.Join(append(r.fields(), direct, detail), "\t"))
 		return
 	}
-	if len(os.Args) == 3 && os.Args[1] == "seq" {
+	if len(os.Args) == 3 && (os.Args[1] == "seq" || os.Args[1] == "seqw") {
 		data, err := os.ReadFile(os.Args[2])
 		if err != nil {
 			fmt.Fprintln(os.Stderr, err)
 			os.Exit(3)
 		}
 		ss := newSession()
+		if os.Args[1] == "seqw" {
+			ss = newFramedSession()
+		}
 		for _, l := range strings.Split(strings.TrimSpace(string(data)), "\n") {
 			fs := strings.Split(l, "\t")
 			if len(fs) < 6 {
@@ -460,7 +585,7 @@ func main() {
 		return
 	}
 	if len(os.Args) != 4 || os.Args[1] != "gen" {
-		fmt.Fprintln(os.Stderr, "usage: c05 gen <tier> <casefile> | c05 one <kind> a1..a5 | c05 seq <file>")
+		fmt.Fprintln(os.Stderr, "usage: c05 gen <tier> <casefile> | c05 one|onew <kind> a1..a5 | c05 seq|seqw <file>")
 		os.Exit(3)
 	}
 	thorough := os.Args[2] == "thorough"
@@ -499,7 +624,24 @@ func main() {
 			key, iv, data := r.Bytes(32), r.Bytes(32), r.Bytes(16*nb)
 			g.add("igeenc", vc.Hex(key), vc.Hex(iv), vc.Hex(data), strconv.Itoa(16*nb), fb)
 			g.add("igedec", vc.Hex(key), vc.Hex(iv), vc.Hex(data), strconv.Itoa(16*nb), fb)
+			if nb%4 == 1 || nb >= 62 {
+				g.addW("igeenc", vc.Hex(key), vc.Hex(iv), vc.Hex(data), strconv.Itoa(16*nb), fb)
+				g.addW("igedec", vc.Hex(key), vc.Hex(iv), vc.Hex(data), strconv.Itoa(16*nb), fb)
+			}
 		}
+		// long inputs: block counts around powers of two / typical chunk sizes and beyond (chaining across
+		// every block boundary, not only inside the first 64 blocks)
+		long := []int{65, 127, 128, 129, 192, 255, 256, 257, 300}
+		if thorough {
+			long = append(long, 383, 384, 511, 512, 513, 640, 1023, 1024, 1025)
+		}
+		for _, nb := range long {
+			key, iv, data := r.Bytes(32), r.Bytes(32), r.Bytes(16*nb)
+			g.add("igeenc", vc.Hex(key), vc.Hex(iv), vc.Hex(data), strconv.Itoa(16*nb), fb)
+			g.add("igedec", vc.Hex(key), vc.Hex(iv), vc.Hex(data), strconv.Itoa(16*nb), fb)
+		}
+		g.addW("igeenc", vc.Hex(r.Bytes(32)), vc.Hex(r.Bytes(32)), vc.Hex(r.Bytes(16*130)), strconv.Itoa(16*130), fb)
+		g.addW("igedec", vc.Hex(r.Bytes(32)), vc.Hex(r.Bytes(32)), vc.Hex(r.Bytes(16*130)), strconv.Itoa(16*130), fb)
 		deg := [][]byte{rep(0, 32), rep(0xff, 32)}
 		nbs := []int{1, 2, 3, 5, 8, 16, 33, 64}
 		if thorough {
@@ -536,21 +678,21 @@ func main() {
 		// every length 0..80 (all non-multiples of 16 are refused, nothing written)
 		for n := 0; n <= 80; n++ {
 			key, iv := r.Bytes(32), r.Bytes(32)
-			g.add("igeenc", vc.Hex(key), vc.Hex(iv), vc.Hex(r.Bytes(n)), strconv.Itoa(n), fb)
-			g.add("igedec", vc.Hex(key), vc.Hex(iv), vc.Hex(r.Bytes(n)), strconv.Itoa(n), fb)
+			g.add2("igeenc", vc.Hex(key), vc.Hex(iv), vc.Hex(r.Bytes(n)), strconv.Itoa(n), fb)
+			g.add2("igedec", vc.Hex(key), vc.Hex(iv), vc.Hex(r.Bytes(n)), strconv.Itoa(n), fb)
 		}
 		// output buffer shorter / longer than the input; bad key sizes; short / long iv
 		for _, ol := range []int{0, 8, 16, 20, 32, 47, 48, 55, 64} {
-			g.add("igeenc", vc.Hex(r.Bytes(32)), vc.Hex(r.Bytes(32)), vc.Hex(r.Bytes(48)), strconv.Itoa(ol), fb)
-			g.add("igedec", vc.Hex(r.Bytes(32)), vc.Hex(r.Bytes(32)), vc.Hex(r.Bytes(48)), strconv.Itoa(ol), fb)
+			g.add2("igeenc", vc.Hex(r.Bytes(32)), vc.Hex(r.Bytes(32)), vc.Hex(r.Bytes(48)), strconv.Itoa(ol), fb)
+			g.add2("igedec", vc.Hex(r.Bytes(32)), vc.Hex(r.Bytes(32)), vc.Hex(r.Bytes(48)), strconv.Itoa(ol), fb)
 		}
 		for _, kl := range []int{0, 15, 17, 31, 33, 64} {
-			g.add("igeenc", vc.Hex(r.Bytes(kl)), vc.Hex(r.Bytes(32)), vc.Hex(r.Bytes(32)), "32", fb)
-			g.add("igedec", vc.Hex(r.Bytes(kl)), vc.Hex(r.Bytes(32)), vc.Hex(r.Bytes(20)), "20", fb)
+			g.add2("igeenc", vc.Hex(r.Bytes(kl)), vc.Hex(r.Bytes(32)), vc.Hex(r.Bytes(32)), "32", fb)
+			g.add2("igedec", vc.Hex(r.Bytes(kl)), vc.Hex(r.Bytes(32)), vc.Hex(r.Bytes(20)), "20", fb)
 		}
 		for _, il := range []int{0, 15, 16, 17, 31, 33, 48} {
-			g.add("igeenc", vc.Hex(r.Bytes(32)), vc.Hex(r.Bytes(il)), vc.Hex(r.Bytes(32)), "32", fb)
-			g.add("igedec", vc.Hex(r.Bytes(32)), vc.Hex(r.Bytes(il)), vc.Hex(r.Bytes(32)), "32", fb)
+			g.add2("igeenc", vc.Hex(r.Bytes(32)), vc.Hex(r.Bytes(il)), vc.Hex(r.Bytes(32)), "32", fb)
+			g.add2("igedec", vc.Hex(r.Bytes(32)), vc.Hex(r.Bytes(il)), vc.Hex(r.Bytes(32)), "32", fb)
 		}
 		if thorough {
 			for i := 0; i < 300; i++ {
@@ -586,7 +728,7 @@ func main() {
 			"f011280887c7bb01df0fc4e17830e0b91fbb8be4b2267cb985ae25f33b527253",
 			"f78af98ef9d401e298f3eeec1c927312aeb6b4125103bc5cc44bcdf0a15e160d445066ff000000000000000000000000")
 		for _, n := range []int{0, 5, 16, 32, 33, 48, 160} {
-			g.add("encraw", vc.Hex(nonce(r, 32, lz2[r.Intn(4)])), vc.Hex(nonce(r, 16, lzs[r.Intn(4)])), vc.Hex(r.Bytes(n)))
+			g.add2("encraw", vc.Hex(nonce(r, 32, lz2[r.Intn(4)])), vc.Hex(nonce(r, 16, lzs[r.Intn(4)])), vc.Hex(r.Bytes(n)))
 		}
 	}
 
@@ -609,15 +751,30 @@ func main() {
 				payload := r.Bytes(n)
 				// the client's own encryption (random padding), read back by a peer and by the client
 				g.add("enc", vc.Hex(n1), vc.Hex(n2), vc.Hex(payload))
+				if n%2 == 1 || n == 12 {
+					g.addW("enc", vc.Hex(n1), vc.Hex(n2), vc.Hex(payload))
+				}
 				// what a conformant peer produces: the one padding length 0..15 that aligns
 				pl := (16 - (20+n)%16) % 16
 				ct := peerEncrypt(payload, r.Bytes(pl), n1, n2)
 				g.add("dec", vc.Hex(n1), vc.Hex(n2), vc.Hex(ct), vc.Hex(payload), strconv.Itoa(pl))
+				if n%2 == 0 {
+					g.addW("dec", vc.Hex(n1), vc.Hex(n2), vc.Hex(ct), vc.Hex(payload), strconv.Itoa(pl))
+				}
 				if payload2 := r.Bytes(n); n%5 == 0 { // zero padding / 0xff padding
 					g.add("dec", vc.Hex(n1), vc.Hex(n2), vc.Hex(peerEncrypt(payload2, rep(byte(0xff*(n/5%2)), pl), n1, n2)), vc.Hex(payload2), strconv.Itoa(pl))
 				}
 			}
 		}
+		// long payloads: 20+len crosses 128 blocks (2048 bytes) and more
+		for _, n := range []int{2027, 2028, 2029, 2043, 2044, 2045, 3000, 4076} {
+			n1, n2 := nonce(r, 32, 0), nonce(r, 16, 0)
+			payload := r.Bytes(n)
+			g.add("enc", vc.Hex(n1), vc.Hex(n2), vc.Hex(payload))
+			pl := (16 - (20+n)%16) % 16
+			g.add("dec", vc.Hex(n1), vc.Hex(n2), vc.Hex(peerEncrypt(payload, r.Bytes(pl), n1, n2)), vc.Hex(payload), strconv.Itoa(pl))
+		}
+		g.addW("enc", vc.Hex(nonce(r, 32, 1)), vc.Hex(nonce(r, 16, 0)), vc.Hex(r.Bytes(2100)))
 		// ciphertexts no peer produces: the client may panic (check(err) / "couldn't trim"), the model must agree on the class
 		for _, n := range []int{0, 7, 16, 17, 32, 48, 64} {
 			g.add("dec", vc.Hex(nonce(r, 32, 0)), vc.Hex(nonce(r, 16, 0)), vc.Hex(r.Bytes(n)), "?", "-")
@@ -640,8 +797,15 @@ func main() {
 			maxl = 300
 		}
 		for n := 0; n <= maxl; n++ {
-			g.add("msgenc", vc.Hex(r.Bytes(n)), vc.Hex(key))
+			g.add2("msgenc", vc.Hex(r.Bytes(n)), vc.Hex(key))
+			g.add2("msgdec", vc.Hex(r.Bytes(n)), vc.Hex(key), vc.Hex(r.Bytes(16)))
+		}
+		for _, n := range []int{2032, 2040, 2048, 2049, 2064, 4100} {
+			g.add2("msgenc", vc.Hex(r.Bytes(n)), vc.Hex(key))
 			g.add("msgdec", vc.Hex(r.Bytes(n)), vc.Hex(key), vc.Hex(r.Bytes(16)))
+		}
+		for _, d := range []string{"0", "1"} {
+			g.addW("aesige", vc.Hex(r.Bytes(16)), vc.Hex(r.Bytes(256)), d)
 		}
 		g.add("msgenc", vc.Hex(r.Bytes(20)), vc.Hex(r.Bytes(100)))
 		g.add("msgdec", vc.Hex(r.Bytes(32)), vc.Hex(r.Bytes(130)), vc.Hex(r.Bytes(16)))
@@ -706,6 +870,11 @@ func main() {
 				ige2(false, k, iv, d)
 				ige2(true, k, iv, refIGE(k, iv, d, false))
 				ige2(false, k, iv, r.Bytes(7+i)) // refused length in between
+				if i == 2 {
+					long := r.Bytes(16 * 129)
+					ige2(false, k, iv, long)
+					ige2(true, k, iv, long)
+				}
 			}
 		}
 		// s5: temp-key wrappers and message-level functions interleaved with the loops; nonces re-set in the
@@ -740,7 +909,11 @@ func main() {
 			nseq, nsteps = 12, 120
 		}
 		for q := 0; q < nseq; q++ {
-			g.newSeq()
+			if q%3 == 1 {
+				g.newSeqW() // shared buffers are windows of larger arrays, all arrays compared after every call
+			} else {
+				g.newSeq()
+			}
 			keys := [][]byte{r.Bytes(32), r.Bytes(32), rep(0, 32), r.Bytes(16)}
 			ivs := [][]byte{r.Bytes(32), r.Bytes(32), rep(0xff, 32)}
 			ns := [][]byte{nonce(r, 32, 0), nonce(r, 32, 1), nonce(r, 32, 29)}
